@@ -367,6 +367,8 @@ class Engine:
             return Opaque(name)
         if kind.startswith("opaque:"):
             return Opaque(name, kind[7:])
+        if kind.startswith("tup:"):
+            return Tup([self.make_param("%s_%d" % (name, i), k, st) for i, k in enumerate(kind[4:].split(","))])
         if kind == "str":
             return Const("a-string")
         if kind == "intseq":
